@@ -143,6 +143,19 @@ def run_case(case, rec):
             if got2 != want2:
                 rec.violation('expanded-lexicons', f"Wordnet('l:1 e:1') (dependency declared: {declare}): expanded_lexicons() = {got2}, model {want2}")
             compare(rec, m, ['l:1', 'e:1'], expand=want2, label='C12 dependent and provider selected together', quirks=QUIRKS)
+            # synsets obtained by translate(lexicon='l:1') live in a Wordnet restricted to l:1 with its *default* expand set:
+            # navigating on from them gives what Wordnet('l:1') gives
+            with warnings.catch_warnings():
+                warnings.simplefilter('ignore')
+                wl = wn.Wordnet('l:1')
+                for src in wn.Wordnet('e:1').synsets()[:6]:
+                    for y in src.translate(lexicon='l:1'):
+                        rec.event('translate.navigated')
+                        got_t = [_pk(z) for z in y.get_related()]
+                        want_t = [_pk(z) for z in wl.synset(y.id).get_related()]
+                        if got_t != want_t:
+                            rec.violation('translate-result-expand', f'{_pk(src)}.translate(lexicon="l:1") -> {_pk(y)}: get_related() = {got_t}, '
+                                          f"the same synset through Wordnet('l:1') gives {want_t} (dependency declared: {declare})")
             # an unrestricted Wordnet expands over all lexicons
             w = wn.Wordnet()
             if sorted(x.specifier() for x in w.expanded_lexicons()) != sorted(m.lex):
